@@ -278,11 +278,11 @@ type tseg struct {
 type tnode struct {
 	seg *tseg
 	// range block
-	pair                   bool
-	spec1, spec2           rangeSpec
-	text1, text2           string
-	tl, tr, endTl, endTr   bool
-	body                   []tseg
+	pair                 bool
+	spec1, spec2         rangeSpec
+	text1, text2         string
+	tl, tr, endTl, endTr bool
+	body                 []tseg
 }
 
 func action(inner string, tl, tr bool) string {
